@@ -374,7 +374,8 @@ func runC02(seed uint64, n int, tier string, outDir string) []*Stats {
 	if tier == "thorough" {
 		nGlue = n / 2
 	}
-	evalCases := glueStream(r, st, nGlue, tier)
+	evalCases, interopCases := glueStream(r, st, nGlue, tier)
+	extra += "Definition interop_cases : list (bool * bool * bool * bool * Z * Z * Z) := " + CList(interopCases) + ".\nDefinition R_interop_cases := Eval vm_compute in (check_interop interop_cases).\nPrint R_interop_cases.\n"
 	extra += "Definition evalorder_cases : list (case * bool * egraph * Z * list (Z * Z) * list (Z * Z)) := " + CList(evalCases) + ".\nDefinition R_evalorder_cases := Eval vm_compute in (check_evalorder evalorder_cases).\nPrint R_evalorder_cases.\n"
 
 	st.Finish("seeded generator (splitmix64 from VERIF_SEED): module graphs by shape (chain, diamond, cycle, self-import, star conflict, random, mixed ESM/CJS/JSON) with named/default/namespace imports, indirect exports, export *, export * as, dynamic import, require, package.json type and .mjs/.cjs; fixed boundary graphs; data-URL texts from a boundary grid plus random bytes; glue = native Node run versus api.Build bundles (esm/cjs/iife x platform x minify). distinct_nontrivial = distinct cases with more than one module / non-empty text")
